@@ -133,11 +133,13 @@ theorem merge_superset (s : St) (ids : List Id) (hok : (mergeInv s ids).2 = none
         · simp at hok
         · rename_i hst
           simp only [hst, Bool.false_eq_true, if_false]
-          by_cases heq : IdSet.equal ids l = true
-          · simp only [heq, if_true]
+          by_cases heq' : (IdSet.equal ids l && !t2.run.opts.statusAll) = true
+          · simp only [heq', if_true]
+            have heq : IdSet.equal ids l = true := by
+              cases h1 : IdSet.equal ids l <;> simp [h1] at heq' ⊢
             rw [equal_iff_same_members] at heq
             exact ⟨l, by rw [hcl2, hcl1, hinv], fun i hi => (heq i).mp hi, fun i hi => hi, by rw [hcl2, hcl1]⟩
-          · simp only [heq, if_false, hd2, Bool.false_eq_true] at hok ⊢
+          · simp only [heq', if_false, hd2, Bool.false_eq_true] at hok ⊢
             have hres : (t2.mutReq "update" invObjId false "" "" (invUpdateEffect (IdSet.union l ids))).2 = "ok" := by
               unfold errOfRes at hok
               by_cases e : (t2.mutReq "update" invObjId false "" "" (invUpdateEffect (IdSet.union l ids))).2 = "ok"
